@@ -361,6 +361,8 @@ def run_check(prop, tier):
             'rule': engine.RULE[prop],
             'samples': jsonable(samples) or [{'note': 'no sample kept'}],
             'scenarios': done_scen,
+            'scenario_seeds': 'random.Random("%d:%s:%s:<index>") for index in 0..%d (one derived PRNG seed per scenario)' % (seed, engine.NAME, prop, max(done_scen - 1, 0)),
+            'seeds_per_hour': int(done_scen / max(wall, 1e-9) * 3600),
             'scenarios_planned': n_total,
             'exhaustive': False,
             'faults_fired': faults,
